@@ -89,7 +89,7 @@ def run(chk):
         chk.count("writers"); chk.count("wl_%s_%s" % (writer, level))
         W = {"dfxp": pycaption.DFXPWriter, "sami": pycaption.SAMIWriter, "webvtt": pycaption.WebVTTWriter}[writer]
         try:
-            doc = W(**opts).write(cs)
+            doc = core.POOL.get(W, **opts).write(cs)
             res = "ok"
         except RelativizationError:
             doc = None; res = "relativization"
